@@ -381,10 +381,7 @@ Theorem key64_cache_refuted :
   model_queries w_addr 4 w_graph [(0, 1); (2, 3)] = [Some true; Some false].
 Proof. repeat split; vm_compute; reflexivity. Qed.
 
-(** ** Graphs built through the API: addEquivalence and destruction keep the lists symmetric *)
-
-Definition dead_empty (g : graph) : Prop := forall x, alive g x = false -> wadj g x = [].
-Definition built_inv (g : graph) : Prop := dead_empty g /\ symmetric g.
+(** ** Edits through the API keep the weak lists well-formed, and change the edges as [spec_edge] says *)
 
 Lemma upd_same : forall (A : Type) (f : nat -> A) k x, upd f k x k = x.
 Proof. intros A f k x. unfold upd. rewrite Nat.eqb_refl. reflexivity. Qed.
@@ -392,63 +389,55 @@ Proof. intros A f k x. unfold upd. rewrite Nat.eqb_refl. reflexivity. Qed.
 Lemma upd_other : forall (A : Type) (f : nat -> A) k x j, j <> k -> upd f k x j = f j.
 Proof. intros A f k x j H. unfold upd. apply Nat.eqb_neq in H. rewrite H. reflexivity. Qed.
 
-Lemma edge_set_wadj : forall g a l x y,
-  edge (set_wadj g a l) x y <-> (x = a /\ In y l /\ alive g y = true) \/ (x <> a /\ edge g x y).
+Lemma filter_all : forall (f : nat -> bool) l, (forall x, In x l -> f x = true) -> filter f l = l.
 Proof.
-  intros g a l x y. rewrite !edge_iff. cbn [set_wadj wadj alive].
-  destruct (Nat.eq_dec x a) as [-> | Hne].
-  - rewrite upd_same. split.
-    + intros [H1 H2]. left. auto.
-    + intros [[_ [H1 H2]] | [H _]]; [auto | contradiction].
-  - rewrite upd_other by exact Hne. split.
-    + intros H. right. auto.
-    + intros [[H _] | [_ H]]; [contradiction | exact H].
+  intros f l. induction l as [|x t IH]; intros H; cbn [filter]; [reflexivity|].
+  rewrite (H x (or_introl eq_refl)). f_equal. apply IH. intros y Hy. apply H. right. exact Hy.
+Qed.
+
+Lemma eqv_alive : forall g x y, In y (eqv g x) -> alive g y = true.
+Proof. intros g x y H. apply filter_In in H. apply H. Qed.
+
+Lemma eqv_set_wadj : forall g a l x, eqv (set_wadj g a l) x = if x =? a then filter (alive g) l else eqv g x.
+Proof.
+  intros g a l x. unfold eqv, set_wadj. cbn [wadj alive]. unfold upd. destruct (x =? a); reflexivity.
+Qed.
+
+Lemma eqv_clean : forall g a x, eqv (clean_expired g a) x = eqv g x.
+Proof.
+  intros g a x. unfold clean_expired. rewrite eqv_set_wadj.
+  destruct (x =? a) eqn:E; [|reflexivity]. apply Nat.eqb_eq in E. subst.
+  apply filter_all. intros y Hy. apply filter_In in Hy. apply Hy.
 Qed.
 
 Lemma edge_clean : forall g a x y, edge (clean_expired g a) x y <-> edge g x y.
-Proof.
-  intros g a x y. unfold clean_expired. rewrite edge_set_wadj.
-  destruct (Nat.eq_dec x a) as [-> | Hne].
-  - rewrite edge_iff, filter_In. split.
-    + intros [[_ [[H1 _] H2]] | [H _]]; [auto | contradiction].
-    + intros [H1 H2]. left. auto.
-  - split.
-    + intros [[H _] | [_ H]]; [contradiction | exact H].
-    + intros H. right. auto.
-Qed.
+Proof. intros g a x y. unfold edge. rewrite eqv_clean. tauto. Qed.
 
-Lemma alive_clean : forall g a, alive (clean_expired g a) = alive g.
-Proof. reflexivity. Qed.
+Lemma wadj_clean_same : forall g a, wadj (clean_expired g a) a = eqv g a.
+Proof. intros g a. unfold clean_expired, set_wadj. cbn [wadj]. apply upd_same. Qed.
 
-(** setEquivalentTo adds the entry exactly when it is not already a live entry. *)
-Lemma set_equivalent_to_spec : forall g a b g' can,
+(** setEquivalentTo appends the entry exactly when it is not already a live entry. *)
+Lemma set_equivalent_to_eqv : forall g a b g' can,
   set_equivalent_to g a b = (g', can) ->
   alive g' = alive g /\
   (can = true <-> ~ edge g a b) /\
-  (forall x y, edge g' x y <-> edge g x y \/ (can = true /\ x = a /\ y = b /\ alive g b = true)).
+  (forall x, eqv g' x = if (x =? a) && can && alive g b then eqv g a ++ [b] else eqv g x).
 Proof.
   intros g a b g' can H. unfold set_equivalent_to in H.
   destruct (has_direct (clean_expired g a) a (Some b)) eqn:E.
   - inversion H; subst. apply has_direct_iff in E. rewrite edge_clean in E.
     split; [reflexivity|]. split; [split; [discriminate | intros F; contradiction]|].
-    intros x y. rewrite edge_clean. split; [auto | intros [H1 | [H1 _]]; [exact H1 | discriminate]].
+    intros x. rewrite andb_false_r. cbn [andb]. apply eqv_clean.
   - inversion H; subst. clear H.
     assert (Hn : ~ edge g a b).
     { intros F. rewrite <- (edge_clean g a) in F. apply has_direct_iff in F. congruence. }
     split; [reflexivity|]. split; [split; auto|].
-    intros x y. rewrite edge_set_wadj. rewrite alive_clean.
-    rewrite upd_same. split.
-    + intros [[-> [Hin Hal]] | [Hne He]].
-      * apply in_app_or in Hin. destruct Hin as [Hin | [<- | []]].
-        -- left. unfold edge, eqv. exact Hin.
-        -- right. auto.
-      * left. apply edge_clean in He. exact He.
-    + intros [He | [_ [-> [-> Hal]]]].
-      * destruct (Nat.eq_dec x a) as [-> | Hne].
-        -- left. split; [reflexivity|]. split; [apply in_or_app; left; exact He|].
-           apply edge_iff in He. apply He.
-        -- right. split; [exact Hne | apply edge_clean; exact He].
-      * left. split; [reflexivity|]. split; [apply in_or_app; right; left; reflexivity | exact Hal].
+    intros x. rewrite eqv_set_wadj. try rewrite wadj_clean_same. try rewrite upd_same. fold (eqv g a). rewrite andb_true_r.
+    destruct (x =? a) eqn:Ex; cbn [andb]; [|apply eqv_clean].
+    apply Nat.eqb_eq in Ex. subst x.
+    change (alive (clean_expired g a)) with (alive g).
+    rewrite filter_app. rewrite (filter_all (alive g) (eqv g a)) by (intros y Hy; eapply eqv_alive; eauto).
+    cbn [filter]. destruct (alive g b); [reflexivity | apply app_nil_r].
 Qed.
 
 Lemma in_remove_first : forall f l y, In y (remove_first f l) -> In y l.
@@ -465,25 +454,69 @@ Proof.
   - destruct (f x); [exact H | right; apply IH; assumption].
 Qed.
 
-(** unsetEquivalentTo touches no pair other than (a, b). *)
-Lemma unset_equivalent_to_spec : forall g a b,
-  alive (unset_equivalent_to g a b) = alive g /\
-  (forall x y, edge (unset_equivalent_to g a b) x y -> edge g x y) /\
-  (forall x y, (x <> a \/ y <> b) -> edge g x y -> edge (unset_equivalent_to g a b) x y).
+Lemma remove_first_ext : forall f h l, (forall x, In x l -> f x = h x) -> remove_first f l = remove_first h l.
 Proof.
-  intros g a b. unfold unset_equivalent_to. split; [reflexivity|]. split.
-  - intros x y H. apply edge_set_wadj in H. rewrite alive_clean in H.
-    destruct H as [[-> [Hin Hal]] | [Hne He]].
-    + apply in_remove_first in Hin. apply (edge_clean g a). apply edge_iff. auto.
-    + apply edge_clean in He. exact He.
-  - intros x y Hxy He. apply edge_set_wadj. rewrite alive_clean.
-    destruct (Nat.eq_dec x a) as [-> | Hne].
-    + left. split; [reflexivity|]. destruct Hxy as [F | Hy]; [contradiction|].
-      apply (edge_clean g a) in He. apply edge_iff in He. destruct He as [Hin Hal].
-      split; [|exact Hal]. apply in_remove_first_other; [exact Hin|].
-      destruct (optnat_eqb (Some b) (lock (clean_expired g a) y)) eqn:E; [|reflexivity].
-      apply find_equivalent_pred in E. destruct E as [E _]. contradiction.
-    + right. split; [exact Hne | apply edge_clean; exact He].
+  intros f h l. induction l as [|x t IH]; intros H; cbn [remove_first]; [reflexivity|].
+  rewrite <- (H x (or_introl eq_refl)). destruct (f x); [reflexivity|].
+  f_equal. apply IH. intros y Hy. apply H. right. exact Hy.
+Qed.
+
+Lemma remove_first_none : forall f l, (forall x, In x l -> f x = false) -> remove_first f l = l.
+Proof.
+  intros f l. induction l as [|x t IH]; intros H; cbn [remove_first]; [reflexivity|].
+  rewrite (H x (or_introl eq_refl)). f_equal. apply IH. intros y Hy. apply H. right. exact Hy.
+Qed.
+
+Lemma remove_first_app_last : forall f l b, (forall x, In x l -> f x = false) -> f b = true -> remove_first f (l ++ [b]) = l.
+Proof.
+  intros f l b. induction l as [|x t IH]; intros H Hb; cbn [remove_first app].
+  - rewrite Hb. reflexivity.
+  - rewrite (H x (or_introl eq_refl)). f_equal. apply IH; [|exact Hb]. intros y Hy. apply H. right. exact Hy.
+Qed.
+
+Lemma remove_first_nodup : forall f l, NoDup l -> NoDup (remove_first f l).
+Proof.
+  intros f l H. induction H as [|x t Hx Hnd IH]; cbn [remove_first]; [constructor|].
+  destruct (f x); [exact Hnd|]. constructor; [|exact IH]. intros F. apply Hx. eapply in_remove_first; eauto.
+Qed.
+
+Lemma remove_first_not_in : forall b l, NoDup l -> ~ In b (remove_first (Nat.eqb b) l).
+Proof.
+  intros b l H. induction H as [|x t Hx Hnd IH]; cbn [remove_first]; [auto|].
+  destruct (b =? x) eqn:E.
+  - apply Nat.eqb_eq in E. subst. exact Hx.
+  - apply Nat.eqb_neq in E. intros [F | F]; [apply E; symmetry; exact F | apply IH; exact F].
+Qed.
+
+Lemma in_remove_first_iff : forall b l y, NoDup l -> (In y (remove_first (Nat.eqb b) l) <-> In y l /\ y <> b).
+Proof.
+  intros b l y Hnd. split.
+  - intros H. split; [eapply in_remove_first; eauto|]. intros ->. eapply remove_first_not_in; eauto.
+  - intros [H Hne]. apply in_remove_first_other; [exact H|]. apply Nat.eqb_neq. intros F. apply Hne. symmetry. exact F.
+Qed.
+
+(** unsetEquivalentTo erases the first live entry that is [b] from the list of [a]. *)
+Lemma unset_eqv : forall g a b x,
+  eqv (unset_equivalent_to g a b) x = if x =? a then remove_first (Nat.eqb b) (eqv g a) else eqv g x.
+Proof.
+  intros g a b x. unfold unset_equivalent_to. rewrite eqv_set_wadj. rewrite wadj_clean_same.
+  destruct (x =? a); [|apply eqv_clean].
+  change (alive (clean_expired g a)) with (alive g).
+  rewrite (remove_first_ext _ (Nat.eqb b) (eqv g a)).
+  - apply filter_all. intros y Hy. apply in_remove_first in Hy. eapply eqv_alive; eauto.
+  - intros e He. unfold lock. change (alive (clean_expired g a) e) with (alive g e).
+    rewrite (eqv_alive _ _ _ He). reflexivity.
+Qed.
+
+Lemma alive_unset : forall g a b, alive (unset_equivalent_to g a b) = alive g.
+Proof. reflexivity. Qed.
+
+Lemma unset_found_iff : forall g a b, unset_found g a b = true <-> edge g a b.
+Proof.
+  intros g a b. rewrite <- (edge_clean g a), <- has_direct_iff. unfold unset_found, has_direct.
+  destruct (find_equivalent (clean_expired g a) a (Some b)) as [e|] eqn:E; [|tauto].
+  unfold find_equivalent in E. apply find_some in E. destruct E as [_ Hp].
+  apply find_equivalent_pred in Hp. destruct Hp as [_ Hal]. rewrite Hal. tauto.
 Qed.
 
 Lemma dead_empty_set_wadj : forall g a l, alive g a = true -> dead_empty g -> dead_empty (set_wadj g a l).
@@ -493,120 +526,327 @@ Proof.
   rewrite upd_other by exact Hne. apply Hd. exact Hx.
 Qed.
 
-Lemma add_equivalence_spec : forall g a b,
-  built_inv g ->
-  built_inv (add_equivalence g a b) /\
-  (forall x y, edge (add_equivalence g a b) x y -> edge g x y \/ (x = a /\ y = b) \/ (x = b /\ y = a)) /\
-  (forall x y, edge g x y -> x <> y -> edge (add_equivalence g a b) x y) /\
-  (alive g a = true -> alive g b = true -> a <> b -> edge (add_equivalence g a b) a b).
+Lemma dead_empty_clean : forall g a, alive g a = true -> dead_empty g -> dead_empty (clean_expired g a).
+Proof. intros g a Ha Hd. unfold clean_expired. apply dead_empty_set_wadj; assumption. Qed.
+
+Lemma dead_empty_unset : forall g a b, alive g a = true -> dead_empty g -> dead_empty (unset_equivalent_to g a b).
 Proof.
-  intros g a b [Hd Hs]. unfold add_equivalence.
-  destruct (alive g a) eqn:Ha; destruct (alive g b) eqn:Hb; cbn [andb];
-    try (split; [split; assumption|]; split; [auto|]; split; [auto | intros; discriminate]).
-  destruct (set_equivalent_to g a b) as [g1 can1] eqn:E1.
-  destruct (set_equivalent_to g1 b a) as [g2 can2] eqn:E2.
-  pose proof (set_equivalent_to_spec _ _ _ _ _ E1) as [A1 [C1 S1]].
-  pose proof (set_equivalent_to_spec _ _ _ _ _ E2) as [A2 [C2 S2]].
-  assert (Hd1 : dead_empty g1).
-  { unfold set_equivalent_to in E1. destruct (has_direct (clean_expired g a) a (Some b));
-      inversion E1; subst; unfold clean_expired; repeat apply dead_empty_set_wadj; auto. }
-  assert (Hd2 : dead_empty g2).
-  { unfold set_equivalent_to in E2. rewrite <- A1 in Hb.
-    destruct (has_direct (clean_expired g1 b) b (Some a));
-      inversion E2; subst; unfold clean_expired; repeat apply dead_empty_set_wadj; auto. }
-  assert (Ha1 : alive g1 a = true) by (rewrite A1; exact Ha).
-  assert (Ha2 : alive g2 a = true) by (rewrite A2; exact Ha1).
-  destruct (Nat.eq_dec a b) as [<- | Hab].
-  - (* addEquivalence(v, v): whatever happens to the pair (v, v) itself is irrelevant to symmetry *)
-    assert (Hfin : forall gf, alive gf = alive g2 ->
-                     (forall x y, edge gf x y -> edge g2 x y) ->
-                     (forall x y, (x <> a \/ y <> a) -> edge g2 x y -> edge gf x y) ->
-                     dead_empty gf ->
-                     built_inv gf /\
-                     (forall x y, edge gf x y -> edge g x y \/ (x = a /\ y = a) \/ (x = a /\ y = a)) /\
-                     (forall x y, edge g x y -> x <> y -> edge gf x y) /\
-                     (true = true -> true = true -> a <> a -> edge gf a a)).
-    { intros gf Af Sub Sup Df.
-      assert (Efg : forall x y, edge gf x y -> edge g x y \/ (x = a /\ y = a)).
-      { intros x y H. apply Sub in H. apply S2 in H. destruct H as [H | [_ [-> [-> _]]]]; [|auto].
-        apply S1 in H. destruct H as [H | [_ [-> [-> _]]]]; auto. }
-      assert (Egf : forall x y, edge g x y -> x <> y -> edge gf x y).
-      { intros x y H Hxy. apply Sup.
-        - destruct (Nat.eq_dec x a) as [-> | Hx]; [right; auto | left; exact Hx].
-        - apply S2. left. apply S1. left. exact H. }
-      split; [split; [exact Df|]|].
-      - intros x y H. destruct (Nat.eq_dec x y) as [-> | Hxy]; [exact H|].
-        destruct (Efg _ _ H) as [Hg | [-> ->]]; [|contradiction].
-        apply Egf; [apply Hs; exact Hg | auto].
-      - split; [intros x y H; destruct (Efg _ _ H); auto|]. split; [exact Egf|].
-        intros _ _ F. contradiction. }
-    destruct (can1 && negb can2).
-    + pose proof (unset_equivalent_to_spec g2 a a) as [U1 [U2 U3]].
-      apply Hfin; auto.
-      unfold unset_equivalent_to, clean_expired. repeat apply dead_empty_set_wadj; auto.
-    + apply Hfin; auto.
-  - (* two different variables: by symmetry both sides add, or neither does *)
-    assert (Hcan : can1 = can2).
-    { assert (X : ~ edge g a b <-> ~ edge g1 b a).
-      { split.
-        - intros Hn F. apply S1 in F. destruct F as [F | [_ [F _]]]; [|apply Hab; symmetry; exact F].
-          apply Hn. apply Hs. exact F.
-        - intros Hn F. apply Hn. apply S1. left. apply Hs. exact F. }
-      destruct can1, can2; try reflexivity.
-      - exfalso. assert (Y : false = true) by (apply C2; apply X; apply C1; reflexivity). discriminate.
-      - exfalso. assert (Y : false = true) by (apply C1; apply X; apply C2; reflexivity). discriminate. }
-    subst can2. rewrite andb_negb_r.
-    assert (Hb1 : alive g1 b = true) by (rewrite A1; exact Hb).
-    assert (E : forall x y, edge g2 x y <-> edge g x y \/ (can1 = true /\ ((x = a /\ y = b) \/ (x = b /\ y = a)))).
-    { intros x y. rewrite S2, S1. rewrite Ha1, Hb. tauto. }
-    split; [split; [exact Hd2|]|].
-    + intros x y H. apply E in H. apply E. destruct H as [H | [Hc [[-> ->] | [-> ->]]]]; auto.
-    + split; [intros x y H; apply E in H; tauto|]. split; [intros x y H _; apply E; auto|].
-      intros _ _ _. apply E.
-      destruct can1; [right; auto|]. left.
-      destruct (has_direct g a (Some b)) eqn:Ed; [apply has_direct_iff; exact Ed|].
-      exfalso. assert (Y : false = true); [|discriminate]. apply C1. intros F. apply has_direct_iff in F. congruence.
+  intros g a b Ha Hd. unfold unset_equivalent_to. apply dead_empty_set_wadj; [exact Ha|]. apply dead_empty_clean; assumption.
 Qed.
 
-Lemma expire_spec : forall g a, built_inv g ->
-  built_inv (expire g a) /\ (forall x y, edge (expire g a) x y <-> edge g x y /\ x <> a /\ y <> a).
+Lemma dead_empty_set_equivalent_to : forall g a b g' can,
+  set_equivalent_to g a b = (g', can) -> alive g a = true -> dead_empty g -> dead_empty g'.
 Proof.
-  intros g a [Hd Hs].
+  intros g a b g' can H Ha Hd. unfold set_equivalent_to in H.
+  destruct (has_direct (clean_expired g a) a (Some b)); inversion H; subst.
+  - apply dead_empty_clean; assumption.
+  - apply dead_empty_set_wadj; [exact Ha|]. apply dead_empty_clean; assumption.
+Qed.
+
+Lemma bool_eq_iff : forall b1 b2 : bool, (b1 = true <-> b2 = true) -> b1 = b2.
+Proof. intros [] [] H; try reflexivity; [symmetry; apply H; reflexivity | apply H; reflexivity]. Qed.
+
+(** *** addEquivalence *)
+Lemma add_equivalence_eqv : forall g a b, wf g -> alive g a = true -> alive g b = true ->
+  alive (add_equivalence g a b) = alive g /\
+  dead_empty (add_equivalence g a b) /\
+  (forall x, eqv (add_equivalence g a b) x =
+     if (a =? b) || has_direct g a (Some b) then eqv g x
+     else if x =? a then eqv g a ++ [b] else if x =? b then eqv g b ++ [a] else eqv g x).
+Proof.
+  intros g a b [Hd [Hs [Hnd Hir]]] Ha Hb. unfold add_equivalence. rewrite Ha, Hb. cbn [andb].
+  destruct (set_equivalent_to g a b) as [g1 can1] eqn:E1.
+  destruct (set_equivalent_to g1 b a) as [g2 can2] eqn:E2.
+  pose proof (set_equivalent_to_eqv _ _ _ _ _ E1) as [A1 [C1 L1]].
+  pose proof (set_equivalent_to_eqv _ _ _ _ _ E2) as [A2 [C2 L2]].
+  pose proof (dead_empty_set_equivalent_to _ _ _ _ _ E1 Ha Hd) as Hd1.
+  assert (Hb1 : alive g1 b = true) by (rewrite A1; exact Hb).
+  assert (Ha1 : alive g1 a = true) by (rewrite A1; exact Ha).
+  pose proof (dead_empty_set_equivalent_to _ _ _ _ _ E2 Hb1 Hd1) as Hd2.
+  rewrite Hb in L1. rewrite Ha1 in L2.
+  destruct (Nat.eq_dec a b) as [Heq | Hab]; [subst b|].
+  - (* addEquivalence(v, v): appended, found by the second call, erased again *)
+    rewrite Nat.eqb_refl. cbn [orb].
+    assert (Hc1 : can1 = true) by (apply C1; apply Hir).
+    subst can1.
+    assert (Ea : eqv g1 a = eqv g a ++ [a]) by (rewrite L1, Nat.eqb_refl; reflexivity).
+    assert (Hc2 : can2 = false).
+    { destruct can2; [|reflexivity]. exfalso. apply (proj1 C2 eq_refl). unfold edge. rewrite Ea.
+      apply in_or_app. right. left. reflexivity. }
+    subst can2. cbn [andb negb].
+    split; [rewrite alive_unset, A2, A1; reflexivity|].
+    split; [apply dead_empty_unset; [rewrite A2; exact Ha1 | exact Hd2]|].
+    intros x. rewrite unset_eqv. rewrite !L2. rewrite andb_false_r. cbn [andb].
+    destruct (x =? a) eqn:Ex.
+    + apply Nat.eqb_eq in Ex. subst x. rewrite Ea. apply remove_first_app_last.
+      * intros y Hy. apply Nat.eqb_neq. intros F. subst y. apply (Hir a). exact Hy.
+      * apply Nat.eqb_refl.
+    + cbn [andb]. rewrite L1, Ex. cbn [andb]. reflexivity.
+  - assert (Eab : (a =? b) = false) by (apply Nat.eqb_neq; exact Hab).
+    assert (Eba : (b =? a) = false) by (apply Nat.eqb_neq; intros F; apply Hab; symmetry; exact F).
+    rewrite Eab. cbn [orb].
+    assert (Hcan : can1 = can2).
+    { apply bool_eq_iff. rewrite C1, C2. unfold edge at 2. rewrite L1, Eba. cbn [andb]. fold (edge g b a).
+      split; intros Hn F; apply Hn; apply Hs; exact F. }
+    subst can2. rewrite andb_negb_r.
+    assert (Hhd : has_direct g a (Some b) = negb can1).
+    { apply bool_eq_iff. rewrite has_direct_iff. destruct can1; cbn [negb].
+      - split; [intros F; exfalso; apply (proj1 C1 eq_refl); exact F | discriminate].
+      - split; [reflexivity|]. intros _. destruct (has_direct g a (Some b)) eqn:Ed; [apply has_direct_iff; exact Ed|].
+        exfalso. assert (Y : false = true); [|discriminate]. apply C1. intros F. apply has_direct_iff in F. congruence. }
+    split; [rewrite A2, A1; reflexivity|]. split; [exact Hd2|].
+    intros x. rewrite Hhd. rewrite L2, !L1. rewrite Eba. cbn [andb]. rewrite !andb_true_r.
+    destruct can1; cbn [negb andb].
+    + destruct (x =? a) eqn:Exa; destruct (x =? b) eqn:Exb; cbn [andb]; try reflexivity.
+      apply Nat.eqb_eq in Exa. apply Nat.eqb_eq in Exb. subst. contradiction.
+    + rewrite !andb_false_r. reflexivity.
+Qed.
+
+Lemma in_app_single : forall (l : list nat) b y, In y (l ++ [b]) <-> In y l \/ y = b.
+Proof.
+  intros l b y. rewrite in_app_iff. cbn [In]. split; [intros [H | [H | []]]; auto | intros [H | H]; auto].
+Qed.
+
+Lemma nodup_app_single : forall (l : list nat) b, NoDup l -> ~ In b l -> NoDup (l ++ [b]).
+Proof.
+  intros l b H Hn. induction H as [|x t Hx Hnd IH]; cbn [app].
+  - constructor; [intros [] | constructor].
+  - constructor.
+    + rewrite in_app_single. intros [F | F]; [contradiction | subst; apply Hn; left; reflexivity].
+    + apply IH. intros F. apply Hn. right. exact F.
+Qed.
+
+Lemma add_equivalence_wf : forall g a b, wf g ->
+  wf (add_equivalence g a b) /\ (forall x y, edge (add_equivalence g a b) x y <-> spec_edge g (AddEq a b) x y).
+Proof.
+  intros g a b Hwf. pose proof Hwf as [Hd [Hs [Hnd Hir]]]. cbn [spec_edge].
+  destruct (alive g a) eqn:Ha; [destruct (alive g b) eqn:Hb|].
+  2,3: (unfold add_equivalence; rewrite Ha; try rewrite Hb; cbn [andb]; split; [exact Hwf|];
+        intros x y; split; [auto | intros [H | [H1 [H2 _]]]; [exact H | discriminate]]).
+  destruct (add_equivalence_eqv g a b Hwf Ha Hb) as [Hal [Hde L]].
+  destruct (Nat.eq_dec a b) as [Heq | Hab]; [subst b|].
+  - (* nothing changes *)
+    assert (L' : forall x, eqv (add_equivalence g a a) x = eqv g x) by (intros x; rewrite L, Nat.eqb_refl; reflexivity).
+    assert (E : forall x y, edge (add_equivalence g a a) x y <-> edge g x y) by (intros x y; unfold edge; rewrite L'; tauto).
+    split.
+    + split; [exact Hde|]. split; [intros x y H; apply E; apply Hs; apply E; exact H|].
+      split; [intros x; rewrite L'; apply Hnd | intros x H; apply (Hir x); apply E; exact H].
+    + intros x y. rewrite E. split; [auto | intros [H | [_ [_ [F _]]]]; [exact H | contradiction]].
+  - assert (Eab : (a =? b) = false) by (apply Nat.eqb_neq; exact Hab).
+    rewrite Eab in L. cbn [orb] in L.
+    destruct (has_direct g a (Some b)) eqn:Ed.
+    + (* already equivalent: nothing changes *)
+      apply has_direct_iff in Ed.
+      assert (E : forall x y, edge (add_equivalence g a b) x y <-> edge g x y) by (intros x y; unfold edge; rewrite L; tauto).
+      split.
+      * split; [exact Hde|]. split; [intros x y H; apply E; apply Hs; apply E; exact H|].
+        split; [intros x; rewrite L; apply Hnd | intros x H; apply (Hir x); apply E; exact H].
+      * intros x y. rewrite E. split; [auto|].
+        intros [H | [_ [_ [_ [[-> ->] | [-> ->]]]]]]; [exact H | exact Ed | apply Hs; exact Ed].
+    + assert (Hn : ~ edge g a b) by (intros F; apply has_direct_iff in F; congruence).
+      assert (Hn' : ~ edge g b a) by (intros F; apply Hn; apply Hs; exact F).
+      assert (E : forall x y, edge (add_equivalence g a b) x y <-> edge g x y \/ (x = a /\ y = b) \/ (x = b /\ y = a)).
+      { intros x y. unfold edge. rewrite L.
+        destruct (x =? a) eqn:Exa; [|destruct (x =? b) eqn:Exb].
+        - apply Nat.eqb_eq in Exa. subst x. rewrite in_app_single. split.
+          + intros [H | H]; auto.
+          + intros [H | [[_ H] | [F _]]]; auto. contradiction.
+        - apply Nat.eqb_eq in Exb. subst x. rewrite in_app_single. split.
+          + intros [H | H]; auto.
+          + intros [H | [[F _] | [_ H]]]; auto. exfalso. apply Hab. symmetry. exact F.
+        - apply Nat.eqb_neq in Exa. apply Nat.eqb_neq in Exb. split; [auto|].
+          intros [H | [[F _] | [F _]]]; [exact H | contradiction | contradiction]. }
+      split.
+      * split; [exact Hde|]. split.
+        -- intros x y H. apply E in H. apply E. destruct H as [H | [[-> ->] | [-> ->]]]; auto.
+        -- split.
+           ++ intros x. rewrite L. destruct (x =? a) eqn:Exa; [|destruct (x =? b) eqn:Exb].
+              ** apply Nat.eqb_eq in Exa. subst. apply nodup_app_single; [apply Hnd | exact Hn].
+              ** apply Nat.eqb_eq in Exb. subst. apply nodup_app_single; [apply Hnd | exact Hn'].
+              ** apply Hnd.
+           ++ intros x H. apply E in H. destruct H as [H | [[-> F] | [-> F]]]; [apply (Hir x); exact H | apply Hab; exact F | apply Hab; symmetry; exact F].
+      * intros x y. rewrite E. split.
+        -- intros [H | H]; [left; exact H | right; auto].
+        -- intros [H | [_ [_ [_ H]]]]; auto.
+Qed.
+
+(** *** destruction of a variable *)
+Lemma expire_eqv : forall g a x, eqv (expire g a) x = if x =? a then [] else filter (fun y => negb (y =? a)) (eqv g x).
+Proof.
+  intros g a x. unfold eqv, expire. cbn [wadj alive]. unfold upd at 2.
+  destruct (x =? a); [reflexivity|].
+  induction (wadj g x) as [|y t IH]; cbn [filter]; [reflexivity|].
+  unfold upd at 1. destruct (y =? a) eqn:E.
+  - rewrite IH. destruct (alive g y); cbn [filter]; [rewrite E; reflexivity | reflexivity].
+  - rewrite IH. destruct (alive g y); cbn [filter]; [rewrite E; reflexivity | reflexivity].
+Qed.
+
+Lemma expire_wf : forall g a, wf g ->
+  wf (expire g a) /\ (forall x y, edge (expire g a) x y <-> spec_edge g (Expire a) x y).
+Proof.
+  intros g a [Hd [Hs [Hnd Hir]]]. cbn [spec_edge].
   assert (E : forall x y, edge (expire g a) x y <-> edge g x y /\ x <> a /\ y <> a).
-  { intros x y. rewrite !edge_iff. unfold expire. cbn [wadj alive].
-    destruct (Nat.eq_dec x a) as [-> | Hx].
-    - rewrite upd_same. split; [intros [[] _] | intros [_ [F _]]; contradiction].
-    - rewrite (upd_other _ (wadj g)) by exact Hx.
-      destruct (Nat.eq_dec y a) as [-> | Hy].
-      + rewrite upd_same. split; [intros [_ F]; discriminate | intros [_ [_ F]]; contradiction].
-      + rewrite upd_other by exact Hy. tauto. }
-  split; [|exact E]. split.
+  { intros x y. unfold edge. rewrite expire_eqv. destruct (x =? a) eqn:Ex.
+    - apply Nat.eqb_eq in Ex. split; [intros [] | intros [_ [F _]]; contradiction].
+    - apply Nat.eqb_neq in Ex. rewrite filter_In, negb_true_iff, Nat.eqb_neq. tauto. }
+  split; [|exact E]. split; [|split; [|split]].
   - intros x Hx. unfold expire in *. cbn [wadj alive] in *.
     destruct (Nat.eq_dec x a) as [-> | Hne]; [apply upd_same|].
     rewrite upd_other in * by exact Hne. apply Hd. exact Hx.
   - intros x y H. apply E in H. apply E. destruct H as [H [H1 H2]]. auto.
+  - intros x. rewrite expire_eqv. destruct (x =? a); [constructor | apply NoDup_filter; apply Hnd].
+  - intros x H. apply E in H. apply (Hir x). apply H.
 Qed.
 
-Lemma built_inv_empty : built_inv empty_graph.
-Proof. split; [intros x H; discriminate | intros x y []]. Qed.
-
-Lemma step_inv : forall n g o, built_inv g -> bounded g n -> op_below n o ->
-  built_inv (step g o) /\ bounded (step g o) n.
+(** *** removeEquivalence *)
+Lemma remove_equivalence_wf : forall g a b, wf g ->
+  wf (remove_equivalence g a b) /\ (forall x y, edge (remove_equivalence g a b) x y <-> spec_edge g (RemEq a b) x y).
 Proof.
-  intros n g [a b | a] Hi Hbd Ho; cbn [step op_below] in *.
-  - destruct (add_equivalence_spec g a b Hi) as [Hi' [Hsub _]]. split; [exact Hi'|].
-    intros v w H. apply Hsub in H. destruct H as [H | [[_ ->] | [_ ->]]]; [eapply Hbd; eauto | lia | lia].
-  - destruct (expire_spec g a Hi) as [Hi' He]. split; [exact Hi'|].
-    intros v w H. apply He in H. destruct H as [H _]. eapply Hbd; eauto.
+  intros g a b Hwf. pose proof Hwf as [Hd [Hs [Hnd Hir]]]. cbn [spec_edge]. unfold remove_equivalence.
+  assert (Hsame : forall g', (forall x, eqv g' x = eqv g x) -> dead_empty g' -> ~ edge g a b ->
+            wf g' /\ (forall x y, edge g' x y <-> edge g x y /\ ~ ((x = a /\ y = b) \/ (x = b /\ y = a)))).
+  { intros g' L Hd' Hn.
+    assert (E : forall x y, edge g' x y <-> edge g x y) by (intros x y; unfold edge; rewrite L; tauto).
+    split.
+    - split; [exact Hd'|]. split; [intros x y H; apply E; apply Hs; apply E; exact H|].
+      split; [intros x; rewrite L; apply Hnd | intros x H; apply (Hir x); apply E; exact H].
+    - intros x y. rewrite E. split; [|tauto]. intros H. split; [exact H|].
+      intros [[-> ->] | [-> ->]]; [apply Hn; exact H | apply Hn; apply Hs; exact H]. }
+  destruct (alive g a) eqn:Ha; [destruct (alive g b) eqn:Hb|]; cbn [andb].
+  - destruct (unset_found g a b) eqn:Ef.
+    + apply unset_found_iff in Ef.
+      set (g1 := unset_equivalent_to g a b).
+      assert (L : forall x, eqv (unset_equivalent_to g1 b a) x =
+                   if x =? b then remove_first (Nat.eqb a) (eqv g1 b) else eqv g1 x) by (intros x; apply unset_eqv).
+      assert (L1 : forall x, eqv g1 x = if x =? a then remove_first (Nat.eqb b) (eqv g a) else eqv g x) by (intros x; apply unset_eqv).
+      assert (Hab : a <> b) by (intros ->; apply (Hir b); exact Ef).
+      assert (Eba : (b =? a) = false) by (apply Nat.eqb_neq; intros F; apply Hab; symmetry; exact F).
+      assert (E : forall x y, edge (unset_equivalent_to g1 b a) x y <-> edge g x y /\ ~ ((x = a /\ y = b) \/ (x = b /\ y = a))).
+      { intros x y. unfold edge. rewrite L. destruct (x =? b) eqn:Exb.
+        - apply Nat.eqb_eq in Exb. subst x. rewrite L1, Eba. rewrite in_remove_first_iff by apply Hnd.
+          split; [intros [H Hy]; split; [exact H|]; intros [[F _] | [_ F]]; [apply Hab; symmetry; exact F | contradiction]
+                 | intros [H Hn]; split; [exact H|]; intros ->; apply Hn; right; auto].
+        - apply Nat.eqb_neq in Exb. rewrite L1. destruct (x =? a) eqn:Exa.
+          + apply Nat.eqb_eq in Exa. subst x. rewrite in_remove_first_iff by apply Hnd.
+            split; [intros [H Hy]; split; [exact H|]; intros [[_ F] | [F _]]; contradiction
+                   | intros [H Hn]; split; [exact H|]; intros ->; apply Hn; left; auto].
+          + apply Nat.eqb_neq in Exa. split; [intros H; split; [exact H|]; intros [[F _] | [F _]]; contradiction | tauto]. }
+      split; [|exact E]. split; [|split; [|split]].
+      * apply dead_empty_unset; [exact Hb|]. apply dead_empty_unset; assumption.
+      * intros x y H. apply E in H. apply E. destruct H as [H Hn]. split; [apply Hs; exact H | tauto].
+      * intros x. rewrite L. destruct (x =? b).
+        -- apply remove_first_nodup. rewrite L1, Eba. apply Hnd.
+        -- rewrite L1. destruct (x =? a); [apply remove_first_nodup|]; apply Hnd.
+      * intros x H. apply E in H. apply (Hir x). apply H.
+    + apply Hsame.
+      * intros x. apply eqv_clean.
+      * apply dead_empty_clean; assumption.
+      * intros F. apply unset_found_iff in F. congruence.
+  - apply Hsame; [reflexivity | exact Hd|]. intros F. apply eqv_alive in F. congruence.
+  - apply Hsame; [reflexivity | exact Hd|]. intros F. apply Hs in F. apply eqv_alive in F. congruence.
 Qed.
 
-Theorem build_inv : forall n ops, Forall (op_below n) ops -> built_inv (build ops) /\ bounded (build ops) n.
+(** *** removeAllEquivalences *)
+Lemma fold_unset_eqv : forall a L g, NoDup L ->
+  forall x, eqv (fold_left (fun h e => unset_equivalent_to h e a) L g) x =
+            if mem x L then remove_first (Nat.eqb a) (eqv g x) else eqv g x.
+Proof.
+  intros a L. induction L as [|e r IH]; intros g Hnd x; cbn [fold_left]; [reflexivity|].
+  inversion Hnd as [|? ? He Hr]; subst.
+  rewrite (IH _ Hr). rewrite unset_eqv. unfold mem. cbn [existsb]. fold (mem x r).
+  destruct (x =? e) eqn:Exe; cbn [orb].
+  - apply Nat.eqb_eq in Exe. subst x.
+    assert (Hm : mem e r = false) by (apply mem_false; exact He). rewrite Hm. reflexivity.
+  - reflexivity.
+Qed.
+
+Lemma fold_unset_alive : forall a L g, alive (fold_left (fun h e => unset_equivalent_to h e a) L g) = alive g.
+Proof. intros a L. induction L as [|e r IH]; intros g; cbn [fold_left]; [reflexivity|]. rewrite IH. reflexivity. Qed.
+
+Lemma fold_unset_dead_empty : forall a L g, (forall e, In e L -> alive g e = true) -> dead_empty g ->
+  dead_empty (fold_left (fun h e => unset_equivalent_to h e a) L g).
+Proof.
+  intros a L. induction L as [|e r IH]; intros g HL Hd; cbn [fold_left]; [exact Hd|].
+  apply IH.
+  - intros e' He'. rewrite alive_unset. apply HL. right. exact He'.
+  - apply dead_empty_unset; [apply HL; left; reflexivity | exact Hd].
+Qed.
+
+Lemma remove_all_wf : forall g a, wf g ->
+  wf (remove_all_equivalences g a) /\ (forall x y, edge (remove_all_equivalences g a) x y <-> spec_edge g (RemAll a) x y).
+Proof.
+  intros g a Hwf. pose proof Hwf as [Hd [Hs [Hnd Hir]]]. cbn [spec_edge]. unfold remove_all_equivalences.
+  destruct (alive g a) eqn:Ha.
+  - set (g1 := fold_left (fun h e => unset_equivalent_to h e a) (eqv g a) g).
+    assert (L1 : forall x, eqv g1 x = if mem x (eqv g a) then remove_first (Nat.eqb a) (eqv g x) else eqv g x)
+      by (intros x; apply fold_unset_eqv; apply Hnd).
+    assert (A1 : alive g1 = alive g) by apply fold_unset_alive.
+    assert (L : forall x, eqv (set_wadj g1 a []) x = if x =? a then [] else eqv g1 x)
+      by (intros x; rewrite eqv_set_wadj; reflexivity).
+    assert (E : forall x y, edge (set_wadj g1 a []) x y <-> edge g x y /\ x <> a /\ y <> a).
+    { intros x y. unfold edge. rewrite L. destruct (x =? a) eqn:Exa.
+      - apply Nat.eqb_eq in Exa. split; [intros [] | intros [_ [F _]]; contradiction].
+      - apply Nat.eqb_neq in Exa. rewrite L1. destruct (mem x (eqv g a)) eqn:Em.
+        + rewrite in_remove_first_iff by apply Hnd. tauto.
+        + apply mem_false in Em. split; [|tauto]. intros H. split; [exact H|]. split; [exact Exa|].
+          intros ->. apply Em. apply Hs. exact H. }
+    split; [|exact E]. split; [|split; [|split]].
+    + apply dead_empty_set_wadj; [rewrite A1; exact Ha|].
+      apply fold_unset_dead_empty; [intros e He; eapply eqv_alive; eauto | exact Hd].
+    + intros x y H. apply E in H. apply E. destruct H as [H [H1 H2]]. auto.
+    + intros x. rewrite L. destruct (x =? a); [constructor|]. rewrite L1.
+      destruct (mem x (eqv g a)); [apply remove_first_nodup|]; apply Hnd.
+    + intros x H. apply E in H. apply (Hir x). apply H.
+  - split; [exact Hwf|]. intros x y. split; [|tauto]. intros H. split; [exact H|]. split.
+    + intros ->. assert (F : wadj g a = []) by (apply Hd; exact Ha). unfold edge, eqv in H. rewrite F in H. destruct H.
+    + intros ->. apply eqv_alive in H. congruence.
+Qed.
+
+(** Every edit keeps the lists well-formed and changes the connection graph as [spec_edge] says. *)
+Theorem step_wf : forall g o, wf g ->
+  wf (step g o) /\ (forall x y, edge (step g o) x y <-> spec_edge g o x y).
+Proof.
+  intros g [a b | a | a b | a] H; cbn [step].
+  - apply add_equivalence_wf; exact H.
+  - apply expire_wf; exact H.
+  - apply remove_equivalence_wf; exact H.
+  - apply remove_all_wf; exact H.
+Qed.
+
+Lemma spec_edge_bounded : forall n g o, bounded g n -> op_below n o ->
+  forall x y, spec_edge g o x y -> y < n.
+Proof.
+  intros n g [a b | a | a b | a] Hbd Ho x y H; cbn [spec_edge op_below] in *.
+  - destruct H as [H | [_ [_ [_ [[_ ->] | [_ ->]]]]]]; [eapply Hbd; eauto | lia | lia].
+  - destruct H as [H _]. eapply Hbd; eauto.
+  - destruct H as [H _]. eapply Hbd; eauto.
+  - destruct H as [H _]. eapply Hbd; eauto.
+Qed.
+
+Lemma step_inv : forall n g o, wf g -> bounded g n -> op_below n o -> wf (step g o) /\ bounded (step g o) n.
+Proof.
+  intros n g o Hwf Hbd Ho. destruct (step_wf g o Hwf) as [Hwf' E]. split; [exact Hwf'|].
+  intros v w H. apply E in H. eapply spec_edge_bounded; eauto.
+Qed.
+
+Lemma wf_empty : wf empty_graph.
+Proof.
+  split; [intros x H; discriminate|]. split; [intros x y []|]. split; [intros x; constructor | intros x []].
+Qed.
+
+Theorem build_wf : forall n ops, Forall (op_below n) ops -> wf (build ops) /\ bounded (build ops) n.
 Proof.
   intros n ops H. unfold build.
-  assert (G : forall g, built_inv g -> bounded g n -> built_inv (fold_left step ops g) /\ bounded (fold_left step ops g) n).
+  assert (G : forall g, wf g -> bounded g n -> wf (fold_left step ops g) /\ bounded (fold_left step ops g) n).
   { induction H as [|o t Ho _ IH]; intros g Hi Hbd; cbn [fold_left]; [auto|].
     destruct (step_inv n g o Hi Hbd Ho) as [Hi' Hbd']. apply IH; assumption. }
-  apply G; [apply built_inv_empty | intros v w []].
+  apply G; [apply wf_empty | intros v w []].
+Qed.
+
+Corollary build_inv : forall n ops, Forall (op_below n) ops ->
+  (dead_empty (build ops) /\ symmetric (build ops)) /\ bounded (build ops) n.
+Proof.
+  intros n ops H. destruct (build_wf n ops H) as [[Hd [Hs _]] Hbd]. auto.
 Qed.
 
 (** The table form used by the drivers is the same graph. *)
@@ -616,42 +856,65 @@ Proof.
   rewrite map_nth. rewrite seq_nth by exact H. reflexivity.
 Qed.
 
+Lemma alive_freeze : forall n g y, alive (freeze n g) y = if y <? n then alive g y else false.
+Proof.
+  intros n g y. unfold freeze. cbn [alive]. destruct (y <? n) eqn:E.
+  - apply Nat.ltb_lt in E. apply nth_map_seq. exact E.
+  - apply Nat.ltb_ge in E. apply nth_overflow. rewrite map_length, seq_length. exact E.
+Qed.
+
+Lemma wadj_freeze : forall n g x, wadj (freeze n g) x = if x <? n then wadj g x else [].
+Proof.
+  intros n g x. unfold freeze. cbn [wadj]. destruct (x <? n) eqn:E.
+  - apply Nat.ltb_lt in E. apply nth_map_seq. exact E.
+  - apply Nat.ltb_ge in E. apply nth_overflow. rewrite map_length, seq_length. exact E.
+Qed.
+
+Lemma freeze_eqv : forall n g, bounded g n -> forall x, eqv (freeze n g) x = if x <? n then eqv g x else [].
+Proof.
+  intros n g Hbd x. unfold eqv at 1. rewrite wadj_freeze. destruct (x <? n); [|reflexivity].
+  unfold eqv. apply filter_ext_in. intros y Hy. rewrite alive_freeze.
+  destruct (y <? n) eqn:E; [reflexivity|]. apply Nat.ltb_ge in E.
+  destruct (alive g y) eqn:Ea; [|reflexivity]. exfalso.
+  assert (y < n); [|lia]. apply (Hbd x y). apply edge_iff. auto.
+Qed.
+
 Lemma edge_freeze : forall n g, bounded g n -> forall x y, edge (freeze n g) x y <-> edge g x y /\ x < n.
 Proof.
-  intros n g Hbd x y. rewrite !edge_iff. unfold freeze. cbn [wadj alive].
-  destruct (Nat.lt_ge_cases x n) as [Hx | Hx].
-  - rewrite nth_map_seq by exact Hx.
-    destruct (Nat.lt_ge_cases y n) as [Hy | Hy].
-    + rewrite nth_map_seq by exact Hy. tauto.
-    + rewrite nth_overflow by (rewrite map_length, seq_length; exact Hy). split.
-      * intros [_ F]. discriminate.
-      * intros [[H1 H2] _]. exfalso. assert (y < n); [|lia]. apply (Hbd x y). apply edge_iff. auto.
-  - rewrite (nth_overflow (map (wadj g) (seq 0 n))) by (rewrite map_length, seq_length; exact Hx).
-    split; [intros [[] _] | intros [_ F]; lia].
+  intros n g Hbd x y. unfold edge. rewrite (freeze_eqv n g Hbd). destruct (x <? n) eqn:E.
+  - apply Nat.ltb_lt in E. tauto.
+  - apply Nat.ltb_ge in E. split; [intros [] | intros [_ F]; lia].
+Qed.
+
+Lemma edge_freeze_sym : forall n g, symmetric g -> bounded g n -> forall x y, edge (freeze n g) x y <-> edge g x y.
+Proof.
+  intros n g Hs Hbd x y. rewrite (edge_freeze n g Hbd). split; [tauto|]. intros H. split; [exact H|].
+  apply (Hbd y x). apply Hs. exact H.
 Qed.
 
 Theorem freeze_inv : forall n g, symmetric g -> bounded g n -> symmetric (freeze n g) /\ bounded (freeze n g) n.
 Proof.
   intros n g Hs Hbd. split.
-  - intros x y H. apply (edge_freeze n g Hbd) in H. destruct H as [H Hx].
-    apply (edge_freeze n g Hbd). split; [apply Hs; exact H | exact (Hbd x y H)].
+  - intros x y H. apply (edge_freeze_sym n g Hs Hbd) in H. apply (edge_freeze_sym n g Hs Hbd). apply Hs. exact H.
   - intros v w H. apply (edge_freeze n g Hbd) in H. destruct H as [H _]. eapply Hbd; eauto.
 Qed.
 
-Lemma connected_freeze : forall n g, symmetric g -> bounded g n ->
-  forall a b, a < n -> (connected (freeze n g) a b <-> connected g a b).
+Lemma freeze_wf : forall n g, wf g -> bounded g n -> wf (freeze n g) /\ bounded (freeze n g) n.
 Proof.
-  intros n g Hs Hbd a b Ha.
-  destruct (freeze_inv n g Hs Hbd) as [Hs' Hbd'].
-  rewrite (connected_reach _ Hs'), (connected_reach _ Hs). split.
-  - intros H. clear Ha. induction H as [x y H | x | x y z _ IH1 _ IH2].
-    + apply rt_step. apply (edge_freeze n g Hbd) in H. apply H.
-    + apply rt_refl.
-    + eapply rt_trans; eauto.
-  - intros H. apply clos_rt_rt1n in H. induction H as [x | x y z Hxy Hyz IH].
-    + apply rt_refl.
-    + eapply rt_trans; [apply rt_step; apply (edge_freeze n g Hbd); split; eauto|].
-      apply IH. eapply Hbd; eauto.
+  intros n g [Hd [Hs [Hnd Hir]]] Hbd. destruct (freeze_inv n g Hs Hbd) as [Hs' Hbd']. split; [|exact Hbd'].
+  split; [|split; [exact Hs'|split]].
+  - intros x Hx. rewrite wadj_freeze. rewrite alive_freeze in Hx. destruct (x <? n); [apply Hd; exact Hx | reflexivity].
+  - intros x. rewrite (freeze_eqv n g Hbd). destruct (x <? n); [apply Hnd | constructor].
+  - intros x H. apply (edge_freeze n g Hbd) in H. apply (Hir x). apply H.
+Qed.
+
+Lemma connected_ext : forall g g', (forall x y, edge g x y <-> edge g' x y) -> forall a b, connected g a b <-> connected g' a b.
+Proof.
+  intros g g' E a b. split; intros H; induction H as [x y H | x | x y _ IH | x y z _ IH1 _ IH2].
+  1,5: apply rst_step; apply E; exact H.
+  1,4: apply rst_refl.
+  1,3: apply rst_sym; assumption.
+  1,2: eapply rst_trans; eauto.
 Qed.
 
 (** ** End to end: every history of the construction API, every history of queries *)
@@ -666,12 +929,84 @@ Theorem built_queries_correct :
          exists r, nth_error (model_queries addr n g qs) i = Some (Some r) /\ (r = true <-> a = b \/ connected g a b)).
 Proof.
   intros n ops H g.
-  destruct (build_inv n ops H) as [[_ Hs] Hbd].
+  destruct (build_wf n ops H) as [[_ [Hs _]] Hbd].
   destruct (freeze_inv n (build ops) Hs Hbd) as [Hs' Hbd'].
   split; [|split].
   - intros a b Hb. apply (has_equiv_iff_connected g n n a b Hs' Hbd' Hb (le_n n)).
   - intros a b. unfold has_equivalent. rewrite <- has_direct_iff. split; [intros E; inversion E; reflexivity | intros ->; reflexivity].
   - intros addr qs Hinj Hr i a b Hi. exact (model_queries_connected addr g n n qs Hinj Hs' Hbd' (le_n n) Hr i a b Hi).
+Qed.
+
+(** ** Histories of edits interleaved with questions: every answer is about the graph as it is then *)
+
+Lemma ask_correct : forall n g c k a b, wf g -> bounded g n -> a < n -> b < n ->
+  cache_inv (model_key heap_addr) (clamp n n g) c ->
+  answered (g, k, a, b) (fst (ask n g c k a b)) /\
+  cache_inv (model_key heap_addr) (clamp n n g) (snd (ask n g c k a b)).
+Proof.
+  intros n g c k a b [_ [Hs _]] Hbd Ha Hb Hc. unfold answered, ask_spec.
+  destruct k; cbn [ask fst snd].
+  - split; [|exact Hc]. apply (has_equiv_iff_connected g n n a b Hs Hbd Hb (le_n n)).
+  - split; [|exact Hc]. exists (has_direct g a (Some b)). split; [reflexivity | apply has_direct_iff].
+  - split; [|exact Hc]. apply (are_equiv_iff_same_or_connected g n n a b Hs Hbd Hb (le_n n)).
+  - assert (Eq : query pair_eqb (model_key heap_addr) (are_equivalent n g) c a b =
+                 query pair_eqb (model_key heap_addr) (clamp n n g) c a b).
+    { unfold query. destruct (lookup pair_eqb (model_key heap_addr a b) c); [reflexivity|].
+      unfold clamp. apply Nat.ltb_lt in Ha. apply Nat.ltb_lt in Hb. rewrite Ha, Hb. reflexivity. }
+    rewrite Eq.
+    assert (Hresp : respects (model_key heap_addr) (clamp n n g)).
+    { apply (injective_key_respects nat (option bool) (N * N) heap_addr heap_addr_inj pairkey pairkey_injective).
+      apply (clamp_sym g n n Hs Hbd (le_n n)). }
+    destruct (query_correct nat (N * N) (option bool) pair_eqb pair_eqb_spec _ _ Hresp c a b Hc) as [Hf Hi].
+    split; [|exact Hi].
+    destruct (are_equiv_iff_same_or_connected g n n a b Hs Hbd Hb (le_n n)) as [r [Er Rr]].
+    exists r. split; [|exact Rr]. etransitivity; [exact Hf|]. unfold clamp.
+    assert (Ha' := Ha). assert (Hb' := Hb). apply Nat.ltb_lt in Ha'. apply Nat.ltb_lt in Hb'. rewrite Ha', Hb'. cbn [andb].
+    exact Er.
+Qed.
+
+Theorem history_correct_gen : forall n h, Forall (event_below n) h ->
+  forall g c, wf g -> bounded g n -> cache_inv (model_key heap_addr) (clamp n n g) c ->
+    Forall2 answered (graph_trace n g h) (run_history n g c h).
+Proof.
+  intros n h H. induction H as [|e t He _ IH]; intros g c Hwf Hbd Hc; cbn [graph_trace run_history]; [constructor|].
+  destruct e as [o | k a b]; cbn [event_below] in He.
+  - destruct (step_inv n g o Hwf Hbd He) as [Hwf1 Hbd1].
+    destruct (freeze_wf n (step g o) Hwf1 Hbd1) as [Hwf2 Hbd2].
+    apply IH; [exact Hwf2 | exact Hbd2 | apply cache_inv_nil].
+  - destruct He as [Ha Hb].
+    destruct (ask_correct n g c k a b Hwf Hbd Ha Hb Hc) as [Hans Hc'].
+    destruct (ask n g c k a b) as [r c'] eqn:E. cbn [fst snd] in *.
+    constructor; [exact Hans | apply IH; assumption].
+Qed.
+
+(** From the empty model: for every history, the list of answers is the list of right answers, each
+    on the graph the edits made so far have produced. *)
+Theorem history_correct : forall n h, Forall (event_below n) h ->
+  Forall2 answered (graph_trace n empty_graph h) (run_history n empty_graph [] h).
+Proof.
+  intros n h H. apply history_correct_gen; [exact H | apply wf_empty | intros v w [] | apply cache_inv_nil].
+Qed.
+
+(** ... and the graphs of the trace evolve by [spec_edge]: what one edit does to the edges the questions see. *)
+Theorem history_step_edges : forall n g o, wf g -> bounded g n -> op_below n o ->
+  (wf (freeze n (step g o)) /\ bounded (freeze n (step g o)) n) /\
+  (forall x y, edge (freeze n (step g o)) x y <-> spec_edge g o x y) /\
+  (forall x, alive (freeze n (step g o)) x = true -> alive g x = true).
+Proof.
+  intros n g o Hwf Hbd Ho.
+  destruct (step_inv n g o Hwf Hbd Ho) as [Hwf1 Hbd1]. pose proof Hwf1 as [_ [Hs1 _]].
+  split; [apply freeze_wf; assumption|]. split.
+  - intros x y. rewrite (edge_freeze_sym n _ Hs1 Hbd1). apply step_wf. exact Hwf.
+  - intros x. rewrite alive_freeze. destruct (x <? n); [|discriminate].
+    destruct o as [a b | a | a b | a]; cbn [step].
+    + unfold add_equivalence. destruct (alive g a && alive g b) eqn:E; [|auto].
+      destruct (set_equivalent_to g a b) as [g1 c1] eqn:E1. destruct (set_equivalent_to g1 b a) as [g2 c2] eqn:E2.
+      pose proof (set_equivalent_to_eqv _ _ _ _ _ E1) as [A1 _]. pose proof (set_equivalent_to_eqv _ _ _ _ _ E2) as [A2 _].
+      destruct (c1 && negb c2); [rewrite alive_unset|]; rewrite A2, A1; auto.
+    + unfold expire. cbn [alive]. unfold upd. destruct (x =? a); [discriminate | auto].
+    + unfold remove_equivalence. destruct (alive g a && alive g b); [|auto]. destruct (unset_found g a b); auto.
+    + unfold remove_all_equivalences. destruct (alive g a); [|auto]. cbn [set_wadj alive]. rewrite fold_unset_alive. auto.
 Qed.
 
 (** Non-vacuity: a chain 0-1-2 with 3 isolated and 4 destroyed after being linked to 2. *)
@@ -688,3 +1023,17 @@ Proof.
   - apply rst_trans with 1; apply rst_step; vm_compute; auto.
   - unfold ex_ops. repeat constructor.
 Qed.
+
+(** The situation a per-variable memo would get wrong: chain 0-1-2-3, ask (0,3); remove the remote link
+    1-2, ask again; put it back, ask again; clear variable 2, ask again. *)
+Definition ex_history : list event :=
+  [Edit (AddEq 0 1); Edit (AddEq 1 2); Edit (AddEq 2 3); Ask QIndirect 0 3; Ask QCached 0 3;
+   Edit (RemEq 1 2); Ask QIndirect 0 3; Ask QUtil 0 3; Ask QCached 0 3; Ask QDirect 2 3;
+   Edit (AddEq 2 1); Ask QIndirect 0 3; Ask QCached 3 0;
+   Edit (RemAll 2); Ask QIndirect 0 3; Ask QIndirect 0 1; Ask QDirect 3 2].
+Example history_nonvacuous :
+  run_history 4 empty_graph [] ex_history =
+    [Some true; Some true; Some false; Some false; Some false; Some true; Some true; Some true;
+     Some false; Some true; Some false] /\
+  Forall (event_below 4) ex_history.
+Proof. split; [vm_compute; reflexivity | unfold ex_history; repeat constructor]. Qed.
